@@ -436,38 +436,73 @@ def d4_deltat(repo, rep, tier):
     fn = repo.func("Epoch", "Epoch.tt2ut")
     names = [a.arg for a in fn.args.args]
     t = ret_term(repo, "Epoch", "Epoch.tt2ut", arg_terms={names[0]: T.sym("year"), names[1]: T.sym("month")})
+    # each leaf of the decision tree holds on a union of year intervals, computed by interval-set arithmetic on its path
+    # condition (and = intersection, or = union, not = complement; comparisons `year op literal` are half-lines)
+    INF = float(10 ** 9)
+
+    def inter(a, b):
+        out = []
+        for l1, h1 in a:
+            for l2, h2 in b:
+                lo_, hi_ = max(l1, l2), min(h1, h2)
+                if lo_ < hi_:
+                    out.append((lo_, hi_))
+        return sorted(out)
+
+    def union(a, b):
+        out = []
+        for l_, h_ in sorted(a + b):
+            if out and l_ <= out[-1][1]:
+                out[-1] = (out[-1][0], max(out[-1][1], h_))
+            else:
+                out.append((l_, h_))
+        return out
+
+    def compl(a):
+        out, cur = [], -INF
+        for l_, h_ in sorted(a):
+            if cur < l_:
+                out.append((cur, l_))
+            cur = max(cur, h_)
+        if cur < INF:
+            out.append((cur, INF))
+        return out
+
+    def yset(c):
+        h = c[0]
+        if h == "bool":
+            return [(-INF, INF)] if c[1] else []
+        if h == "not":
+            inner = c[1]
+            if inner[0] == "cmp" and T.sym("year") not in (inner[2], inner[3]):
+                return [(-INF, INF)]
+            return compl(yset(inner))
+        if h == "and":
+            r = [(-INF, INF)]
+            for x in c[1:]:
+                r = inter(r, yset(x))
+            return r
+        if h == "or":
+            r = []
+            for x in c[1:]:
+                r = union(r, yset(x))
+            return r
+        if h == "cmp":
+            cj = c
+            if cj[3] == T.sym("year") and cj[2][0] == "num":
+                cj = ("cmp", {"Lt": "Gt", "LtE": "GtE", "Gt": "Lt", "GtE": "LtE"}.get(cj[1], cj[1]), cj[3], cj[2])
+            if cj[2] == T.sym("year") and cj[3][0] == "num":
+                v = float(cj[3][1])
+                if cj[1] in ("Lt", "LtE"):
+                    return [(-INF, v)]
+                if cj[1] in ("GtE", "Gt"):
+                    return [(v, INF)]
+        return [(-INF, INF)]
     segs = []
     for conds, leaf in phi_leaves(t):
-        lo, hi = -10**9, 10**9
-        for c in conds:
-            for cj in conjuncts(c):
-                neg = False
-                if cj[0] == "not":
-                    neg, cj = True, cj[1]
-                    # negated conjunction: only single comparisons are inverted
-                    if cj[0] == "and":
-                        continue
-                if cj[0] == "cmp" and cj[3] == T.sym("year") and cj[2][0] == "num":
-                    # literal on the left (chained comparison A <= year < B): mirror it
-                    cj = ("cmp", {"Lt": "Gt", "LtE": "GtE", "Gt": "Lt", "GtE": "LtE"}.get(cj[1], cj[1]), cj[3], cj[2])
-                if cj[0] != "cmp" or cj[2] != T.sym("year") or cj[3][0] != "num":
-                    continue
-                op, v = cj[1], float(cj[3][1])
-                if neg:
-                    op = {"Lt": "GtE", "GtE": "Lt", "Gt": "LtE", "LtE": "Gt"}[op]
-                if op == "Lt":
-                    hi = min(hi, v)
-                elif op == "GtE":
-                    lo = max(lo, v)
-        segs.append((lo, hi, leaf))
-    # the final `else` carries only negated tests: it is the complement of the others
-    open_segs = [s for s in segs if s[1] == 10**9]
-    segs = [s for s in segs if s[1] != 10**9]
-    if len(open_segs) > 1:
-        raise AnalysisError("tt2ut: more than one segment without an upper bound")
-    if open_segs:
-        segs.append((max([s[1] for s in segs] + [open_segs[0][0]]), 10**9, open_segs[0][2]))
-    segs.sort(key=lambda s: s[0])
+        for lo, hi in yset(T.land(*conds) if conds else ("bool", True)):
+            segs.append((lo, hi, leaf))
+    segs.sort(key=lambda s_: (s_[0], s_[1]))
     rep.floor("Delta-T segments", len(segs), 14)
 
     def val(seg, year, ycont):
